@@ -7,7 +7,8 @@
 (* arrived right behind it).  States are numbered by a version counter so that "which state" is           *)
 (* unambiguous: ver = number of state writes so far.                                                       *)
 EXTENDS Naturals, Sequences, TLC
-CONSTANTS Clients, Vals, MaxVer, MaxQ
+CONSTANTS Clients, Vals, MaxVer, MaxQ,
+          EarlyCompletion    \* TRUE: model what the code really does - the FIRST frame that arrives after the request ends the exchange (finding D11)
 VARIABLES dev,      \* [val, ver]          appliance state
           ch,       \* [c -> sequence of frames [k: "state"|"other", val, ver]] in flight / queued, in order
           attrs,    \* [c -> [val, ver]]  the client's copy (ver = version of the frame it was taken from; 0 = none)
@@ -40,8 +41,15 @@ Complete(c) == /\ wait[c] # 0
                     /\ attrs' = [attrs EXCEPT ![c] = Fold(@, SubSeq(ch[c], 1, n))]
                     /\ ch' = [ch EXCEPT ![c] = SubSeq(@, n + 1, Len(@))]
                /\ wait' = [wait EXCEPT ![c] = 0] /\ UNCHANGED <<dev, floor>>
+(* what LAN.send really does: it returns as soon as ONE frame has arrived after the request - if an unsolicited frame reaches the  *)
+(* client at an earlier instant than the solicited reply, the exchange ends without the reply (which is read by the next exchange) *)
+CompleteEarly(c) == /\ EarlyCompletion /\ wait[c] > 1
+                    /\ \E n \in 1..(wait[c] - 1) :
+                         /\ attrs' = [attrs EXCEPT ![c] = Fold(@, SubSeq(ch[c], 1, n))]
+                         /\ ch' = [ch EXCEPT ![c] = SubSeq(@, n + 1, Len(@))]
+                    /\ wait' = [wait EXCEPT ![c] = 0] /\ UNCHANGED <<dev, floor>>
 ENext == \E c \in Clients : \/ \E v \in Vals : Apply(c, v)
-                            \/ Refresh(c) \/ Unsolicited(c) \/ Duplicate(c) \/ Other(c) \/ Complete(c)
+                            \/ Refresh(c) \/ Unsolicited(c) \/ Duplicate(c) \/ Other(c) \/ Complete(c) \/ CompleteEarly(c)
 ESpec == EInit /\ [][ENext]_evars
 (* after an exchange the client's copy is the state the appliance had when it answered, or a later one; never an older one *)
 Fresh == [][\A c \in Clients : (wait[c] # 0 /\ wait'[c] = 0) => attrs'[c].ver >= floor[c]]_evars
